@@ -19,10 +19,12 @@ What is proved here about the model of `broker/src/bus_listener.rs` and the list
   the plain filter predicate (`scan_objects_exact`, `matches_object_is_filter_semantics`);
 * a new bus event goes to exactly the connections owning a started (scope includes new) listener with
   a matching filter, once per connection, untagged (`new_event_once_per_connection`).
-Partial: that the object/service maps the two enumeration paths read agree with each other (cookie ↔
-uuid views) is part of the registry invariant of C03, tied by the correspondence runs.
+* the maps the two enumeration paths read agree (cookie ↔ uuid views): by the registry invariant of C03 both paths list
+  exactly the registered objects / services that match (`start_lists_exactly_the_matching_objects`,
+  `start_lists_exactly_the_matching_services`, `registry_views_agree_all_histories`).
 -/
 import Aldrin.Lemmas.Broker.Handlers
+import Aldrin.Lemmas.Broker.CurrentView
 
 namespace Aldrin.Broker
 
@@ -90,6 +92,96 @@ theorem current_msgs_tagged (b : Broker) (l : Listener) (cookie : Cookie) (so) (
     · obtain ⟨u, _, h⟩ := hm
       cases hf : AL.find? u b.svcs <;> simp [hf] at h
       exact ⟨_, h.symm⟩
+
+/-- **Both enumeration paths of `start` list exactly the existing objects that match.** In a consistent registry with
+unique cookies (every state the broker reaches: `registry_views_agree_all_histories`), for a listener whose cached flags
+are right and whichever path `specific_objects` selects: a tagged created-event for the object id `o` is sent iff `o` is
+registered and the listener's filters match it. -/
+theorem start_lists_exactly_the_matching_objects {b : Broker} (hrc : RegistryConsistent b) (hn : AL.NodupKeys b.objUuids)
+    {l : Listener} (h : l.OK) (cookie : Cookie) {so : Option (List Uuid)} (hso : l.specificObjects = .ok so) (o : ObjId) :
+    Rsp.emitBusEvent (some cookie) (.objCreated o) ∈ currentObjMsgs b l cookie so ↔
+      ((o.cookie, o.uuid) ∈ b.objUuids ∧ l.matchesObject o = true) := by
+  cases so with
+  | none => exact scan_objects_exact b l cookie o
+  | some uuids =>
+    have hch := specific_objects_choice h
+    rw [hso] at hch
+    have hno : l.filters.any Filter.isAnyObject = false := by
+      cases hany : l.filters.any Filter.isAnyObject
+      · rfl
+      · simp [hany] at hch
+    simp only [hno, Bool.false_eq_true, ↓reduceIte, Except.ok.injEq, Option.some.injEq] at hch
+    subst hch
+    obtain ⟨hex, _⟩ := specific_objects_exact h hno o
+    rw [object_views_agree hrc hn o, hex]
+    simp only [currentObjMsgs, List.mem_filterMap]
+    constructor
+    · rintro ⟨u, hu, hm⟩
+      cases hf : AL.find? u b.objs with
+      | none => simp [hf] at hm
+      | some ob =>
+        simp only [hf, Option.map_some, Option.some.injEq, Rsp.emitBusEvent.injEq, true_and, BusEv.objCreated.injEq] at hm
+        subst hm
+        exact ⟨⟨ob, hf, rfl⟩, hu⟩
+    · rintro ⟨⟨ob, hf, hc⟩, hu⟩
+      refine ⟨o.uuid, hu, ?_⟩
+      simp only [hf, Option.map_some, Option.some.injEq, Rsp.emitBusEvent.injEq, true_and, BusEv.objCreated.injEq]
+      cases o
+      simp_all
+
+/-- the same for services: whichever path `specific_services` selects, a tagged created-event for the service id `sid` is
+sent iff `sid` is registered and the listener's filters match it -/
+theorem start_lists_exactly_the_matching_services {b : Broker} (hrc : RegistryConsistent b) (hn : AL.NodupKeys b.svcUuids)
+    {l : Listener} (h : l.OK) (cookie : Cookie) {ss : Option (List (Uuid × Uuid))} (hss : l.specificServices? = .ok ss) (sid : SvcId) :
+    Rsp.emitBusEvent (some cookie) (.svcCreated sid) ∈ currentSvcMsgs b l cookie ss ↔
+      ((∃ info, (sid.cookie, (sid.obj, sid.uuid, info)) ∈ b.svcUuids) ∧ l.matchesService sid = true) := by
+  cases ss with
+  | none =>
+    simp only [currentSvcMsgs, List.mem_filterMap]
+    constructor
+    · rintro ⟨p, hp, hm⟩
+      split at hm
+      · rename_i hmatch
+        simp only [Option.some.injEq, Rsp.emitBusEvent.injEq, true_and, BusEv.svcCreated.injEq] at hm
+        subst hm
+        exact ⟨⟨p.2.2.2, hp⟩, hmatch⟩
+      · simp at hm
+    · rintro ⟨⟨info, hp⟩, hm⟩
+      exact ⟨(sid.cookie, (sid.obj, sid.uuid, info)), hp, by simp [hm]⟩
+  | some pairs =>
+    have hch := specific_services_choice h
+    rw [hss] at hch
+    have hall : l.filters.all Filter.isSpecificService = true := by
+      cases ha : l.filters.all Filter.isSpecificService
+      · simp [ha] at hch
+      · rfl
+    simp only [hall, ↓reduceIte, Except.ok.injEq, Option.some.injEq] at hch
+    subst hch
+    obtain ⟨hex, _⟩ := specific_services_exact h hall sid
+    rw [service_views_agree hrc hn sid, hex]
+    simp only [currentSvcMsgs, List.mem_filterMap]
+    constructor
+    · rintro ⟨p, hp, hm⟩
+      cases hf : AL.find? p b.svcs with
+      | none => simp [hf] at hm
+      | some sv =>
+        simp only [hf, Option.map_some, Option.some.injEq, Rsp.emitBusEvent.injEq, true_and, BusEv.svcCreated.injEq] at hm
+        subst hm
+        exact ⟨⟨sv, hf, rfl, rfl⟩, hp⟩
+    · rintro ⟨⟨sv, hf, hc, hoc⟩, hp⟩
+      refine ⟨(sid.obj.uuid, sid.uuid), hp, ?_⟩
+      simp only [hf, Option.map_some, Option.some.injEq, Rsp.emitBusEvent.injEq, true_and, BusEv.svcCreated.injEq]
+      obtain ⟨⟨ou, oc⟩, su, sc⟩ := sid
+      simp_all
+
+/-- for ALL histories the hypotheses of `start_lists_exactly_the_matching_objects` hold: the registry is consistent and
+no cookie is registered twice -/
+theorem registry_views_agree_all_histories (es : List Event) (b : Broker) (w : Work) (outs : List (List Out))
+    (h : run {} {} es = .ok (b, w, outs)) :
+    RegistryConsistent b ∧ AL.NodupKeys b.objUuids ∧ AL.NodupKeys b.svcUuids := by
+  have hg := run_G5 es _ _ _ _ _ G5_init h
+  have hr := run_reg es _ _ _ _ _ G5_init Reg.init h
+  exact ⟨RegistryConsistent.of_reg hr, hg.2.1.nodup, hg.2.2.2.1.nodup⟩
 
 /-- new events: one untagged copy per connection owning a started matching listener -/
 theorem new_event_once_per_connection (s : St) (e : BusEv) :
